@@ -249,7 +249,11 @@ def step (v : Variant) (fl : Caps) (s : State) : Op → State × Res × List Pac
     | none => (s, .ok, [])
     | some r => setRef fl s r f
   | .removeAll ids => removeAll s ids
-  | .beUpsert acts es => (es.foldl (procEntry v acts) s, .ok, [.upsert acts es])
+  | .beUpsert acts es =>
+    -- the backend's packet went through gate's decoder: the action set arrives in protocol order;
+    -- after ProcessUpdate the packet is forwarded unchanged
+    let acts := canonActs acts
+    (es.foldl (procEntry v acts) s, .ok, [.upsert acts es])
   | .beRemove ids => ({ s with map := ids.foldl AL.erase s.map }, .ok, [.remove ids])
 
 /-- run a history; returns the final state and all packets handed to the viewer, in order -/
@@ -284,6 +288,11 @@ def profileReplaced (s : State) (r : Ref) : Bool :=
     | some hp => match AL.get s.heap hp with
       | none => false
       | some p => p.name ≠ a.name || p.props ≠ a.props
+
+/-- `Entries()[u].SetX` on an entry stored under the all-zero uuid: the setter mutates the entry, then
+    `rawEntry` rejects the id and nothing is sent -/
+def nilSetHazard (fl : Caps) (s : State) (u : UUID) (f : Field) : Bool :=
+  u = nilUUID && (AL.get s.map u).isSome && (fieldPacket fl u f).isSome
 
 /-- uuids for which `Add(hs)` hits `profileReplaced`, evaluated in the states `Add` runs through -/
 def addHazards (v : Variant) (fl : Caps) : State → List Ref → List UUID
